@@ -42,6 +42,16 @@ Theorem C11_limit_is_rfc : SPF_TERM_LIMIT = RFC_TERM_LIMIT /\ RFC_TERM_LIMIT = 1
 Proof. split; [exact limit_is_rfc|reflexivity]. Qed.
 Print Assumptions C11_limit_is_rfc.
 
+(** the other numbers of RFC 7208 the code tests against: at most 10 MX names (the code counts
+    one too many: 10 names already fail) and 10 PTR names, prefix lengths up to 32 / 128, 253 octets
+    of a name used for a lookup; and an included "fail" is kept exactly when the counter is over the limit *)
+Theorem C11_rfc_constants :
+  SPF_MX_LIMIT = 10%nat /\ SPF_PTR_LIMIT = 10%nat /\ CIDR4_MAX = 32%Z /\ CIDR6_MAX = 128%Z
+  /\ IP4_PREFIX_MAX = 32%N /\ IP6_PREFIX_MAX = 128%N /\ SPF_TXT_MAXLEN = 253%Z
+  /\ SPF_INCLUDE_KEEP_FAIL = SPF_TERM_LIMIT.
+Proof. repeat split; reflexivity. Qed.
+Print Assumptions C11_rfc_constants.
+
 (** Stage 2.  record_bad_token(): for every text, what is stored for the Received-SPF comment is
     printable ASCII (33..126) without '(' ')' and backslash. *)
 Theorem C11_bad_token_clean : forall tk, forallb comment_byte (record_bad_token tk) = true.
